@@ -84,6 +84,10 @@ type c08State struct {
 	counters map[string]int64
 }
 
+// c08LastOuts holds, for the history executed last, the observation of every un-faulted render
+// (operation index -> output and error presence); the cross-process oracle compares them.
+var c08LastOuts map[int]string
+
 type modelOut struct {
 	out []byte
 	err bool
@@ -182,6 +186,7 @@ func c08Exec(cs *c08Hist, counters map[string]int64) (*wk.Failure, int) {
 	sut.InstallExtensions()
 	sut.SetObligatory(cs.Obligatory)
 	defer sut.SetObligatory(nil)
+	c08LastOuts = map[int]string{}
 	mk := func(class, site, detail string) *wk.Failure {
 		return &wk.Failure{Class: class, Site: site, Detail: detail} // the caller attaches the process log as replay
 	}
@@ -265,6 +270,13 @@ func c08Exec(cs *c08Hist, counters map[string]int64) (*wk.Failure, int) {
 				counters["fault_fired_panic_"+faults.PanicKind(op.Kind%int(faults.NumPanicKinds)).String()]++
 			}
 			faulted := w.Failed > 0 || fired || esc != nil
+			if !faulted {
+				counters["renders_compared_with_model"]++
+				if rerr == nil && len(w.Accepted) > 0 {
+					counters["renders_compared_with_output"]++
+				}
+				c08LastOuts[i] = fmt.Sprintf("%v|%x", rerr != nil, wk.FNV(string(w.Accepted)))
+			}
 			switch {
 			case !faulted && !bytes.Equal(w.Accepted, m.out):
 				return mk("output", "render output depends on history",
@@ -420,15 +432,58 @@ func C08(c *wk.Ctx) {
 			}
 			u.AddFail(f)
 		}
+		if len(u.Fails) == 0 && len(cs.Histories) > 0 && c.Variant == "plain" {
+			// the process clause: the last history against a fresh process
+			mine := c08LastOuts
+			if other, err := c.Child("oracle-replay", 0, ""); err == nil {
+				last := cs.Histories[len(cs.Histories)-1]
+				for i, o := range mine {
+					if v, ok := other[fmt.Sprintf("op%d", i)]; ok && v != o && i < len(last.Ops) {
+						u.AddFail(attach(&wk.Failure{Class: "output", Site: "process: render output depends on what the process did before",
+							Detail: fmt.Sprintf("operation %d (%s %s) observed %s after the recorded histories and %s in a fresh process", i, last.Ops[i].Op, last.Ops[i].Template, o, v)}))
+						break
+					}
+				}
+			}
+		}
 		c.Emit(u)
 		return
 	}
-	units, perUnit, maxLen := 800, 6, 8
+	units, perUnit, maxLen := 800, 6, maxLenFor(c.Tier)
 	if c.Tier == "thorough" {
-		units, perUnit, maxLen = 40000, 6, 40
+		units = 40000
 	}
 	if c.Mode == "plan" {
 		c.Emit(map[string]interface{}{"ev": "plan", "units": units, "histories_per_unit": perUnit, "max_history": maxLen})
+		return
+	}
+	if c.Mode == "oracle" || c.Mode == "oracle-replay" {
+		// a fresh process executes one history as the first thing it does and reports the observation of
+		// every un-faulted render
+		u := wk.NewUnit(c.Start)
+		var h *c08Hist
+		if c.Mode == "oracle-replay" {
+			var cs c08Case
+			readReplay(c, &cs)
+			if n := len(cs.Histories); n > 0 {
+				h = cs.Histories[n-1]
+			}
+		} else {
+			var want int
+			fmt.Sscanf(c.Extra, "%d", &want)
+			r := simrt.NewRNG(c.UnitSeed(c.Start, 8))
+			for hi := 0; hi <= want; hi++ {
+				gc := gen.Generate(c.UnitSeed(c.Start, uint64(200+hi)), c08Opts())
+				h = c08History(r, gc, maxLenFor(c.Tier))
+			}
+		}
+		if h != nil && h.Bundle != nil {
+			runHist(h, u.Counters)
+			for i, o := range c08LastOuts {
+				u.Observe(fmt.Sprintf("op%d", i), o)
+			}
+		}
+		c.Emit(u)
 		return
 	}
 	for run := c.Start; run < c.Start+c.Count && run < units; run++ {
@@ -440,6 +495,24 @@ func C08(c *wk.Ctx) {
 			gc := gen.Generate(c.UnitSeed(run, uint64(200+hi)), c08Opts())
 			cs := c08History(r, gc, maxLen)
 			f, done, steps, budget := runHist(cs, u.Counters)
+			if f == nil && !budget && (hi == 1 || hi == 4) && c.Variant == "plain" {
+				// processes with different histories must agree: the same history as the first thing a
+				// fresh process does
+				mine := c08LastOuts
+				other, err := c.Child("oracle", run, fmt.Sprint(hi))
+				u.Counters["histories_compared_with_a_fresh_process"]++
+				if err != nil {
+					u.Trouble = err.Error()
+				} else {
+					for i, o := range mine {
+						if v, ok := other[fmt.Sprintf("op%d", i)]; ok && v != o {
+							f = attach(&wk.Failure{Class: "output", Site: "process: render output depends on what the process did before",
+								Detail: fmt.Sprintf("operation %d (%s %s) of a history observed %s here and %s when the same history is the first thing a fresh process does", i, cs.Ops[i].Op, cs.Ops[i].Template, o, v)})
+							break
+						}
+					}
+				}
+			}
 			u.Evals += int64(done)
 			u.Steps += steps
 			digest = digest*1099511628211 ^ uint64(steps)<<1 ^ uint64(done)
@@ -468,4 +541,11 @@ func C08(c *wk.Ctx) {
 		u.Observe("digest", fmt.Sprintf("%016x", digest))
 		c.Emit(u)
 	}
+}
+
+func maxLenFor(tier string) int {
+	if tier == "thorough" {
+		return 40
+	}
+	return 8
 }
